@@ -66,7 +66,9 @@ Init ==
        /\ regs[i].t = 1
        /\ \E f \in RegionStartFrame(regs[i])..RegionEndFrame(regs[i]) :
             /\ ks = f * PS
-            /\ ke \in {a \in (ks + 1)..((RegionEndFrame(regs[i]) + 1) * PS) : a - ks <= MaxKFrames * PS /\ a % PS \in {0, 1}}
+            \* the image ends anywhere up to the end of its region: on a frame boundary, just past one, or at the region's
+            \* (possibly unaligned) end inside its trailing partial page
+            /\ ke \in {a \in (ks + 1)..(regs[i].a + regs[i].l) : a - ks <= MaxKFrames * PS + (PS - 1) /\ (a % PS \in {0, 1} \/ a = regs[i].a + regs[i].l)}
   /\ pc = "boot" /\ last = 0 /\ cnt = 0
   /\ pools = <<>> /\ total = 0 /\ reserved = 0 /\ held = {} /\ nops = 0 /\ script = <<>>
   /\ s = [P!S0 EXCEPT !.rb = P!Bounds(EvRegs), !.kf = P!KFirst(Wn(ks)), !.ke = P!KEndP1(Wn(ke))]
